@@ -114,15 +114,16 @@ func verifStatRaw(name string) (int, int, bool)
 func verifENOENT() error
 
 type verifFileInfo struct {
-	name string
-	size int64
-	mode os.FileMode
+	name  string
+	size  int64
+	mode  os.FileMode
+	mtime int
 }
 
 func (f *verifFileInfo) Name() string       { return f.name }
 func (f *verifFileInfo) Size() int64        { return f.size }
 func (f *verifFileInfo) Mode() os.FileMode  { return f.mode }
-func (f *verifFileInfo) ModTime() time.Time { return time.Time{} }
+func (f *verifFileInfo) ModTime() time.Time { return time.Unix(0, int64(f.mtime)) }
 func (f *verifFileInfo) IsDir() bool        { return false }
 func (f *verifFileInfo) Sys() any           { return nil }
 
@@ -135,13 +136,14 @@ func verifModelStat(name string) (os.FileInfo, error) {
 }
 
 func verifFStatRaw(f *os.File) (int, int, bool)
+func verifFMTimeRaw(f *os.File) int
 
 func verifModelFStat(f *os.File) (os.FileInfo, error) {
 	size, mode, ok := verifFStatRaw(f)
 	if !ok {
 		return nil, verifENOENT()
 	}
-	return &verifFileInfo{name: "", size: int64(size), mode: os.FileMode(mode)}, nil
+	return &verifFileInfo{name: "", size: int64(size), mode: os.FileMode(mode), mtime: verifFMTimeRaw(f)}, nil
 }
 
 // context.Cause: the cause recorded at cancellation, which is the context's error unless the canceller gave another one
